@@ -437,8 +437,14 @@ class Canon:
         if key not in self._names:
             self._names[key] = None  # recursion guard
             base = ("@" if stable else "@mut:") + self._head(d[1]) + d[2]
-            used = [v for v in self._names.values() if v and (v == base or v.startswith(base + "#"))]
-            self._names[key] = base if not used else "%s#%d" % (base, len(used))
+            # duplicates are numbered in *source order* (the numbering frozen at load, facts._label_locals), not in the
+            # order a particular rendering happens to meet them: a snapshot and a later shadow of it never swap names
+            ln = (self.body.get("local_names") or {}).get(key) if isinstance(getattr(self, "body", None), dict) else None
+            if ln and (ln == base or ln.startswith(base + "#")):
+                self._names[key] = ln
+            else:
+                used = [v for v in self._names.values() if v and (v == base or v.startswith(base + "#"))]
+                self._names[key] = base if not used else "%s#%d" % (base, len(used))
         return self._names[key] or n["name"]
 
     def _through_helper(self, d, depth):
